@@ -174,6 +174,9 @@ func (i *Inst) RunTeardown(s *TdScript, tw *TraceWriter, rng *rand.Rand) error {
 		}
 	case s.Cause == "unframeable":
 		t.SendRaw(tsgu.Header(tsgu.PktData, 3))
+	case s.Cause == "unframeable-huge":
+		// a length field beyond anything the protocol allows, followed by a few bytes only: the client then waits
+		t.SendRaw(append(tsgu.Header(tsgu.PktData, []uint32{0x20001, 0xffffffff, 0x7fffffff}[rng.Intn(3)]), make([]byte, 10)...))
 	case strings.HasPrefix(s.Cause, "shut:"):
 		// half close: the client sends FIN on the connection it writes on and keeps the socket open
 		var c net.Conn
